@@ -7,6 +7,7 @@ import (
 	"golang.org/x/tools/go/ssa"
 
 	"oapsa/internal/prog"
+	"oapsa/internal/walk"
 )
 
 // P6 — result used before its error is examined.
@@ -367,4 +368,85 @@ func paramDerefUnguarded(pa *ssa.Parameter) bool {
 		}
 	}
 	return false
+}
+
+// checkNilNilPairs is the callee side of the result-before-errcheck rule (an Engler-style contradiction between two
+// sites that each look fine): a caller examines only the error of a call and then dereferences the pointer result,
+// i.e. it believes "no error means a value". Every such callee in the module must then never return (nil, nil): each
+// of its return paths with a definitely nil error carries a pointer that is not definitely nil. Callers that test the
+// value for nil impose nothing.
+func (c *Ctx) checkNilNilPairs(rule string, fns []*ssa.Function) int {
+	type need struct {
+		callee *ssa.Function
+		user   *ssa.Function
+		at     ssa.Instruction
+	}
+	var needs []need
+	seen := map[*ssa.Function]bool{}
+	for _, fn := range fns {
+		for _, b := range fn.Blocks {
+			for _, in := range b.Instrs {
+				call, ok := in.(*ssa.Call)
+				if !ok {
+					continue
+				}
+				callee := call.Call.StaticCallee()
+				if callee == nil || !c.P.InModule(callee) || len(callee.Blocks) == 0 || seen[callee] {
+					continue
+				}
+				res := callee.Signature.Results()
+				if res.Len() != 2 || !isErrorType(res.At(1).Type()) {
+					continue
+				}
+				if _, isPtr := res.At(0).Type().Underlying().(*types.Pointer); !isPtr {
+					continue
+				}
+				if call.Referrers() == nil {
+					continue
+				}
+				for _, r := range *call.Referrers() {
+					ex, ok := r.(*ssa.Extract)
+					if !ok || ex.Index != 0 || ex.Referrers() == nil {
+						continue
+					}
+					whenNil, whenNonNil := nilTestEdges(ex)
+					if len(whenNil)+len(whenNonNil) > 0 {
+						continue // the caller tests the value itself
+					}
+					for _, u := range *ex.Referrers() {
+						if derefUse(c, u, ex) {
+							needs = append(needs, need{callee, fn, u})
+							seen[callee] = true
+							break
+						}
+					}
+				}
+			}
+		}
+	}
+	n := 0
+	for _, nd := range needs {
+		nd := nd
+		n++
+		key := "value-or-error|" + fnKey(nd.callee)
+		bad := false
+		c.WalkShallow(rule, nd.callee, func(p *walk.Path) {
+			if _, ok := p.Exit.(*ssa.Return); !ok || bad {
+				return
+			}
+			r0, ok0 := p.ReturnDV(0)
+			r1, ok1 := p.ReturnDV(1)
+			if !ok0 || !ok1 {
+				return
+			}
+			if DefinitelyNil(p, r1, p.End()) && DefinitelyNil(p, r0, p.End()) {
+				bad = true
+				c.bad(rule, key, p.Exit, prog.Name(nd.callee)+" returns neither a value nor an error on this path, while "+prog.Name(nd.user)+" ("+c.pos(nd.at)+") dereferences the value after checking only the error: the request panics", p, p.End())
+			}
+		})
+		if !bad {
+			c.R.OK(rule, key, c.P.Pos(nd.callee.Pos()), "no (nil, nil) return; "+prog.Name(nd.user)+" relies on it")
+		}
+	}
+	return n
 }
